@@ -435,11 +435,12 @@ Definition next_sep (path : string) : nat :=
 
 (** "for i, staticIndex := range n.staticIndices { if staticIndex == firstChar { ...; break } }":
     the first child with that index byte is handed to [k], [dflt] if there is none *)
-Fixpoint pick_static {A} (first : ascii) (l : list (ascii * tree)) (k : tree -> A) (dflt : A) : A :=
-  match l with
-  | [] => dflt
-  | (d, child) :: r => if Ascii.eqb d first then k child else pick_static first r k dflt
-  end.
+Definition pick_static {A} (first : ascii) (k : tree -> A) (dflt : A) : list (ascii * tree) -> A :=
+  fix go (l : list (ascii * tree)) : A :=
+    match l with
+    | [] => dflt
+    | (d, child) :: r => if Ascii.eqb d first then k child else go r
+    end.
 
 (** [fx2], [fx5]: the candidate repairs fixes/C03-F2.diff (the catch-all child's
     values are matched with the child's own keys and the captures including the
@@ -458,11 +459,11 @@ Fixpoint find_node (fx2 fx5 : bool) (m : nat -> list string -> list string -> mr
   | String first _ =>
     (* static child *)
     let st :=
-      pick_static first (t_statics n)
+      pick_static first
         (fun child => if prefix (t_path child) path
                       then find_node fx2 fx5 m child (sdrop (slen (t_path child)) path) caps
                       else (FRes None caps true, []))
-        (FRes None caps true, []) in
+        (FRes None caps true, []) (t_statics n) in
     match st with
     | (FPanic, cs) => (FPanic, cs)
     | (FRes (Some x) caps1 b, cs) => (FRes (Some x) caps1 b, cs)
